@@ -69,6 +69,55 @@ pub fn mark(tag: u8, a: usize, b: usize) {
     }
 }
 
+/// the innermost stack frame that belongs to one of the reader crates (identifies the call site of a
+/// panic / a refused allocation independently of line numbers)
+pub fn reader_frame(bt: &str) -> String {
+    const CRATES: [&str; 8] = ["arrow_ipc::", "arrow_flight::", "parquet::", "parquet_variant::", "arrow_avro::", "arrow_csv::", "arrow_json::", "arrow_cast::"];
+    for line in bt.lines() {
+        let t = line.trim_start();
+        let Some((n, sym)) = t.split_once(": ") else { continue };
+        if n.is_empty() || !n.bytes().all(|b| b.is_ascii_digit()) {
+            continue;
+        }
+        if CRATES.iter().any(|c| sym.contains(c)) {
+            let sym = match sym.rfind("::h") {
+                Some(i) if sym.len() - i == 19 => &sym[..i],
+                _ => sym,
+            };
+            return sym.chars().filter(|c| *c != '"' && *c != '\\').take(110).collect();
+        }
+    }
+    String::new()
+}
+
+thread_local! {
+    static IN_REFUSAL: std::cell::Cell<bool> = const { std::cell::Cell::new(false) };
+}
+
+/// write the `A` marker of a refused request, with the reader function that asked for the memory
+fn refused(sz: usize) {
+    if IN_REFUSAL.with(|g| g.replace(true)) {
+        return;
+    }
+    let lim = LIMIT.swap(usize::MAX, Relaxed); // the backtrace itself allocates
+    let f = reader_frame(&std::backtrace::Backtrace::force_capture().to_string());
+    mark(b'A', CUR.load(Relaxed), sz);
+    let fd = MARK_FD.load(Relaxed);
+    if fd >= 0 {
+        let line = format!("F {f}\n");
+        unsafe {
+            libc::write(fd, line.as_ptr() as *const libc::c_void, line.len());
+        }
+    }
+    if let Ok(mut g) = REFUSED_BY.try_lock() {
+        *g = f;
+    }
+    LIMIT.store(lim, Relaxed);
+    IN_REFUSAL.with(|g| g.set(false));
+}
+
+pub static REFUSED_BY: std::sync::Mutex<String> = std::sync::Mutex::new(String::new());
+
 #[inline]
 fn admit(sz: usize) -> bool {
     let lim = LIMIT.load(Relaxed);
@@ -78,7 +127,7 @@ fn admit(sz: usize) -> bool {
     let grown = LIVE.load(Relaxed).saturating_sub(BASE.load(Relaxed)).saturating_add(sz);
     if grown > lim {
         if HIT.swap(sz.max(1), Relaxed) == 0 {
-            mark(b'A', CUR.load(Relaxed), sz);
+            refused(sz);
         }
         false
     } else {
